@@ -63,6 +63,9 @@ impl Reporter for DefaultReporter {
 /// * `Err(...)` - Error during replay
 type ReplayResult = (Option<u64>, Vec<(Arc<MemTable>, u64)>);
 
+/// Upper limit for the arena of a memtable built during replay (arena offsets are u32).
+const MAX_REPLAY_ARENA_SIZE: usize = u32::MAX as usize;
+
 pub(crate) fn replay_wal(
 	wal_dir: &Path,
 	min_wal_number: u64,
@@ -145,82 +148,88 @@ pub(crate) fn replay_wal(
 
 		log::debug!("Processing WAL segment #{:020}", segment_id);
 
-		// Create a new memtable for this segment
-		let mut current_memtable = Arc::new(MemTable::new(arena_size));
+		// One memtable per segment: the flush of a recovered memtable marks its whole
+		// segment as persisted (log_number = segment + 1), so a segment must never be
+		// spread over two memtables. If the segment does not fit the configured arena
+		// (it was filled up to ArenaFull at run time, and skiplist tower heights are
+		// random), replay it again into a larger arena.
+		let mut segment_arena_size = arena_size;
+		let (current_memtable, batches_in_segment) = 'segment: loop {
+			let current_memtable = Arc::new(MemTable::new(segment_arena_size));
 
-		// Open the segment file
-		let file = File::open(&segment.file_path)?;
-		let reporter = Box::new(DefaultReporter::new(segment_id));
-		let mut reader = Reader::with_options(file, Some(reporter), segment_id);
+			// Open the segment file
+			let file = File::open(&segment.file_path)?;
+			let reporter = Box::new(DefaultReporter::new(segment_id));
+			let mut reader = Reader::with_options(file, Some(reporter), segment_id);
 
-		let mut batches_in_segment = 0;
-		let mut last_valid_offset = 0;
+			let mut batches_in_segment = 0;
+			let mut last_valid_offset = 0;
 
-		// Process each record in this segment
-		loop {
-			match reader.read() {
-				Ok((record_data, offset)) => {
-					last_valid_offset = offset as usize;
-					let batch = Batch::decode(record_data)?;
-					let batch_highest_seq_num = batch.get_highest_seq_num();
+			// Process each record in this segment
+			loop {
+				match reader.read() {
+					Ok((record_data, offset)) => {
+						last_valid_offset = offset as usize;
+						let batch = Batch::decode(record_data)?;
+						let batch_highest_seq_num = batch.get_highest_seq_num();
 
-					if batch_highest_seq_num > max_seq_num {
-						max_seq_num = batch_highest_seq_num;
-					}
-
-					batches_in_segment += 1;
-
-					log::debug!(
-						"Replayed batch from WAL #{:020}: seq_num={}, entries={}, offset={}",
-						segment_id,
-						batch_highest_seq_num,
-						batch.count(),
-						offset
-					);
-
-					// Apply batch to current memtable with ArenaFull handling
-					match current_memtable.add(&batch) {
-						Ok(()) => {}
-						Err(Error::ArenaFull) => {
-							// Edge case: single segment exceeds memtable capacity
-							if current_memtable.is_empty() {
-								return Err(Error::Other(format!(
-									"Batch too large for memtable (batch size exceeds arena_size={})",
-									arena_size
-								)));
-							}
-							// Save current memtable and create new one
-							log::warn!(
-								"WAL segment #{:020} exceeds single memtable capacity, splitting",
-								segment_id
-							);
-							memtables.push((Arc::clone(&current_memtable), segment_id));
-							current_memtable = Arc::new(MemTable::new(arena_size));
-							// Retry on fresh memtable
-							current_memtable.add(&batch)?;
+						if batch_highest_seq_num > max_seq_num {
+							max_seq_num = batch_highest_seq_num;
 						}
-						Err(e) => return Err(e),
+
+						batches_in_segment += 1;
+
+						log::debug!(
+							"Replayed batch from WAL #{:020}: seq_num={}, entries={}, offset={}",
+							segment_id,
+							batch_highest_seq_num,
+							batch.count(),
+							offset
+						);
+
+						match current_memtable.add(&batch) {
+							Ok(()) => {}
+							Err(Error::ArenaFull) => {
+								if segment_arena_size >= MAX_REPLAY_ARENA_SIZE {
+									return Err(Error::Other(format!(
+										"WAL segment #{segment_id:020} does not fit the largest possible memtable arena"
+									)));
+								}
+								log::warn!(
+									"WAL segment #{:020} exceeds a {}-byte memtable arena, replaying it into a larger one",
+									segment_id,
+									segment_arena_size
+								);
+								segment_arena_size = segment_arena_size
+									.saturating_mul(2)
+									.min(MAX_REPLAY_ARENA_SIZE);
+								continue 'segment;
+							}
+							Err(e) => return Err(e),
+						}
 					}
+					Err(WalError::Corruption(err)) => {
+						log::error!(
+							"Corrupted WAL record detected in segment {:020} at offset {}: {}",
+							segment_id,
+							last_valid_offset,
+							err
+						);
+						return Err(Error::wal_corruption(
+							segment_id as usize,
+							last_valid_offset,
+							format!("Corrupted WAL record: {}", err),
+						));
+					}
+					Err(WalError::IO(err)) if err.kind() == std::io::ErrorKind::UnexpectedEof => {
+						break; // End of this segment
+					}
+					Err(err) => return Err(err.into()),
 				}
-				Err(WalError::Corruption(err)) => {
-					log::error!(
-						"Corrupted WAL record detected in segment {:020} at offset {}: {}",
-						segment_id,
-						last_valid_offset,
-						err
-					);
-					return Err(Error::wal_corruption(
-						segment_id as usize,
-						last_valid_offset,
-						format!("Corrupted WAL record: {}", err),
-					));
-				}
-				Err(WalError::IO(err)) if err.kind() == std::io::ErrorKind::UnexpectedEof => {
-					break; // End of this segment
-				}
-				Err(err) => return Err(err.into()),
 			}
-		}
+
+			break (current_memtable, batches_in_segment);
+		};
 
 		// Save this segment's memtable if it has data
 		if !current_memtable.is_empty() {
